@@ -22,5 +22,6 @@ def suites(tier):
         jobs.append(dict(id="http:key=%s" % (key or "none"), func="zzH_C16_http", cfg=cfg, cfgs=dict(key=key)))
     for i, key in enumerate(("", "k1", " ", "k1 ")):
         jobs.append(dict(id="start:key%d" % i, func="zzH_C16_start", cfg={}, cfgs={"env:FZF_API_KEY": key}, go_inline=True))
+    jobs.append(dict(id="status", func="zzH_C16_status", cfg={}))
     jobs.append(dict(id="addr", func="zzH_C16_addr", cfg=dict(nmax=4 if q else 7)))
     return [src_suite("src", jobs)]
